@@ -585,6 +585,19 @@ func checkC10Framing(r *Report, p *Prog) {
 					if !ok {
 						continue
 					}
+					if sc := c.Call.StaticCallee(); sc != nil && strings.HasPrefix(sc.String(), "slices.Concat") && len(c.Call.Args) == 1 {
+						// form 1b: slices.Concat(iv, out)
+						if sl, ok := c.Call.Args[0].(*ssa.Slice); ok {
+							if al, ok := sl.X.(*ssa.Alloc); ok {
+								if el := arrayLiteralElems(al); len(el) > 0 && (el[0] == ivOp || fx.AP(el[0]) == fx.AP(ivOp)) {
+									if sz := sliceLenAP(fx, ivOp); sz != "" {
+										prepended = append(prepended, sizeSuffix(sz))
+									}
+								}
+							}
+						}
+						continue
+					}
 					bi, ok := c.Call.Value.(*ssa.Builtin)
 					if !ok {
 						continue
@@ -630,6 +643,10 @@ func checkC10Framing(r *Report, p *Prog) {
 		strips := callsModuleHelper(p, dec, func(f *ssa.Function) bool {
 			return f.Signature.Params().Len() == 1 && f.Signature.Results().Len() == 2 && types.TypeString(f.Signature.Params().At(0).Type(), nil) == "[]byte"
 		})
+		if !strips {
+			// the stripping written out in Decrypt itself
+			_, strips = padStripBuf(NewAnalysis(p).Ctx(dec))
+		}
 		// padding must not depend on the plaintext (Decrypt strips unconditionally)
 		if pads && strips {
 			an := NewAnalysis(p)
